@@ -178,6 +178,61 @@ template <class T> static void hsv_case (vp::Ctx& c, const char* tn)
     }
     c.nt ();
 }
+// ---- half element type (C3h / C4h / Vec3<half>): the same conversions, results rounded to half
+static void hsv_half_case (vp::Ctx& c)
+{
+    vp::Src&   s    = c.s;
+    const quad epsh = (quad) 0.0009765625; // 2^-10
+    typedef IM::Vec3<half>   V3;
+    typedef IM::Color4<half> C4;
+    auto unit_h = [&] () -> half {
+        switch (s.below (5))
+        {
+            case 0: return half (0.0f);
+            case 1: return half (1.0f);
+            case 2: return half ((float) s.below (256) / 255.0f);
+            default: return half ((float) s.unit ());
+        }
+    };
+    half alpha = unit_h ();
+    {
+        half r = unit_h ();
+        half g = unit_h ();
+        half b = unit_h ();
+        if (s.chance (40)) g = b = r;
+        VP_NOTE (c, "half rgb=(" << (float) r << "," << (float) g << "," << (float) b << ")");
+        V3 h3 = IM::rgb2hsv (V3 (r, g, b));
+        C4 h4 = IM::rgb2hsv (C4 (r, g, b, alpha));
+        VP_REQUIRE (c, h3.x.bits () == h4.r.bits () && h3.y.bits () == h4.g.bits () && h3.z.bits () == h4.b.bits (), "rgb2hsv-overloads-differ", "half rgb2hsv Vec3 vs Color4 differ for rgb (" << (float) r << "," << (float) g << "," << (float) b << ")");
+        VP_REQUIRE (c, h4.a.bits () == alpha.bits (), "rgb2hsv-alpha", "half rgb2hsv changed alpha");
+        R3<quad> w = ref_rgb2hsv<quad> ((quad) (float) r, (quad) (float) g, (quad) (float) b);
+        quad     hd = hue_dist<quad> ((quad) (float) h3.x, w.x);
+        // one rounding to half of an accurate double result: half an ulp of half at most (values <= 1); limit 1 eps_half
+        VP_REQUIRE (c, hd <= epsh && qabs ((quad) (float) h3.y - w.y) <= epsh && qabs ((quad) (float) h3.z - w.z) <= epsh && (float) h3.x >= 0 && (float) h3.x <= 1 && (float) h3.y >= 0 && (float) h3.y <= 1,
+                    "rgb2hsv-half", "half rgb2hsv(" << (float) r << "," << (float) g << "," << (float) b << ") = (" << (float) h3.x << "," << (float) h3.y << "," << (float) h3.z << ") exact (" << (double) w.x << "," << (double) w.y << "," << (double) w.z << ")");
+        V3   back = IM::hsv2rgb (h3);
+        quad e    = qmax (qmax (qabs ((quad) (float) back.x - (quad) (float) r), qabs ((quad) (float) back.y - (quad) (float) g)), qabs ((quad) (float) back.z - (quad) (float) b));
+        // hue and saturation each carry half an ulp of half; f = 6h amplifies: measured worst below 6 eps_half, limit 16
+        VP_REQUIRE (c, e <= 16 * epsh, "roundtrip-rgb-hsv-rgb-half", "half hsv2rgb(rgb2hsv(" << (float) r << "," << (float) g << "," << (float) b << ")) = (" << (float) back.x << "," << (float) back.y << "," << (float) back.z << ")");
+    }
+    {
+        half h  = unit_h ();
+        half sa = unit_h ();
+        half v  = unit_h ();
+        V3   c3 = IM::hsv2rgb (V3 (h, sa, v));
+        C4   c4 = IM::hsv2rgb (C4 (h, sa, v, alpha));
+        VP_REQUIRE (c, c3.x.bits () == c4.r.bits () && c3.y.bits () == c4.g.bits () && c3.z.bits () == c4.b.bits () && c4.a.bits () == alpha.bits (), "hsv2rgb-overloads-differ", "half hsv2rgb Vec3 vs Color4 differ / alpha changed for hsv (" << (float) h << "," << (float) sa << "," << (float) v << ")");
+        R3<quad> w = ref_hsv2rgb<quad> ((quad) (float) h, (quad) (float) sa, (quad) (float) v);
+        quad     e = qmax (qmax (qabs ((quad) (float) c3.x - w.x), qabs ((quad) (float) c3.y - w.y)), qabs ((quad) (float) c3.z - w.z));
+        VP_REQUIRE (c, e <= epsh, "hsv2rgb-half", "half hsv2rgb(" << (float) h << "," << (float) sa << "," << (float) v << ") = (" << (float) c3.x << "," << (float) c3.y << "," << (float) c3.z << ") exact (" << (double) w.x << "," << (double) w.y << "," << (double) w.z << ")");
+    }
+    c.nt ();
+}
+VP_RANDOM (hsv_half, 300000, 5000000, "half-element colours (Vec3<half>/C3h and Color4<half>/C4h) on the unit cube: rgb2hsv / hsv2rgb within one eps_half (2^-10) of an independent quad evaluation of the half inputs (the library computes in double and rounds once), round trip within 16 eps_half, Vec3 and Color4 overloads bit-identical, alpha untouched; non-trivial = always")
+{
+    hsv_half_case (c);
+}
+
 #define C17_HSV_RULE "rgb and hsv triples on the unit cube: channels from {0, 1, k/255, 2^-k, uniform}; grey axis, two channels equal, cube corners, nearly grey (1 ulp apart); hue exactly 1, just below 1, on sector edges k/6 +-2 ulps.  Oracle = independent quad implementation: v exact, s within 2 eps, hue within 2 eps (circular), hsv2rgb within 8 eps; hsv2rgb(rgb2hsv(c)) within 16 eps; rgb2hsv(hsv2rgb(h)) within 4 eps (hue error weighted by s) for s,v >= 1/16; Vec3 and Color4 overloads bit-identical; alpha (unit, arbitrary finite, huge) bit-identical; hsv2rgb_d/rgb2hsv_d identical to the double templates; non-trivial = always"
 VP_RANDOM (hsv_float, 500000, 10000000, C17_HSV_RULE)
 {
